@@ -399,7 +399,17 @@ func TestValidator_XTEXT(t *testing.T) {
 		}
 	}
 	rnd := rand.New(rand.NewSource(8))
-	pools := [][]rune{[]rune("abcXYZ019 @£$¥èéùìòÇØøÅå_^{}\\[~]|€ÆæßÉ"), []rune("中文短信测试，。！"), {0x1F600, 0x1F4A9, 0x10000, 0x10FFFF, 0xFFFD, 0xFEFF, 0xFFFE}, []rune("äöüÿþÐ\u0080\u009f ")}
+	// end-of-message shapes: lengths around the 8-septet / 7-octet block boundaries, ending in CR, '@', space or an escape
+	for _, c := range cs {
+		for l := 1; l <= 25; l++ {
+			for _, last := range []string{"\r", "@", " ", "[", "a", "\n"} {
+				for _, fill := range []string{"a", "1", "@", "\r"} {
+					try(c, strings.Repeat(fill, l-1)+last)
+				}
+			}
+		}
+	}
+	pools := [][]rune{[]rune("abcXYZ019 @£$¥èéùìòÇØøÅå_^{}\\[~]|€ÆæßÉ\r\n"), []rune("中文短信测试，。！"), {0x1F600, 0x1F4A9, 0x10000, 0x10FFFF, 0xFFFD, 0xFEFF, 0xFFFE}, []rune("äöüÿþÐ\u0080\u009f ")}
 	rounds := 60000
 	if quick {
 		rounds = 8000
